@@ -7,7 +7,7 @@ import (
 	"verif/internal/cls"
 )
 
-var accelLetters = []rune("abcabxyAB01 -@:")
+var accelLetters = []rune("abcabxyzABZ019 -@:") // incl. the ends of a-z / A-Z / 0-9: boundary values of the ASCII case helpers
 
 func (s *state) accStr(t *rapid.T, min, max int) *ast.Node {
 	n := rapid.IntRange(min, max).Draw(t, "strlen")
